@@ -223,6 +223,49 @@ def matrix_shard(args):
 
 
 # ------------------------------------------------------------------------------------------------
+# leg 2b: generated hostile values (nested, mixed arrays, odd keys) as arguments of every builtin
+
+def mixed_value(rng, depth=0):
+    """Like common.rand_value but biased towards heterogeneous arrays/objects (shape-dependent code paths)."""
+    k = rng.random()
+    if depth >= 3 or k < 0.25:
+        return rng.choice([None, True, False, 0.0, 1.0, -1.5, 1e308, "", "a", "\u20ac", "x y", "1e5", "null"])
+    if k < 0.6:
+        return [mixed_value(rng, depth + 1) for _ in range(rng.choice([0, 1, 2, 2, 3, 4]))]
+    return {rng.choice(["a", "b", "c", "", "x y", "1", "k\u20ac"]): mixed_value(rng, depth + 1) for _ in range(rng.choice([0, 1, 2, 3]))}
+
+
+def values_shard(args):
+    seed, funcs, per = args
+    rng = random.Random(seed)
+    agg = Agg()
+    srv = Server()
+    try:
+        for fname, arity in funcs:
+            if arity == 0 or arity > 4:
+                continue
+            for _ in range(per):
+                pos = rng.randrange(arity)
+                argv = []
+                for i in range(arity):
+                    if i == pos or rng.random() < 0.3:
+                        argv.append(common.jval(mixed_value(rng)))
+                    else:
+                        argv.append(rng.choice(POOL_SMALL))
+                if not all(size_ok(fname, i, a) for i, a in enumerate(argv)):
+                    continue
+                src = "local cap = 7; std.%s(%s)" % (fname, ", ".join(argv))
+                o = observe(agg, srv, run_lines(src, multiline=0), src, "values", timeout=20)
+                if o is None:
+                    continue
+                agg.count("values:" + o.cls)
+                agg.nontrivial.add(common.h64(src))
+    finally:
+        srv.close()
+    return agg
+
+
+# ------------------------------------------------------------------------------------------------
 # leg 2c: function-specific grids (from reading the code: places where byte offsets, widths, sizes matter)
 
 def grid_sources():
@@ -482,6 +525,8 @@ def run(tier, seed):
         shards = [(seed * 7919 + i, "full", order[i::48], 0) for i in range(48)]
         shards += [(seed * 7907 + i, "random", order[i::16], 1500) for i in range(16)]
     for a in common.pmap(matrix_shard, shards):
+        total.merge(a)
+    for a in common.pmap(values_shard, [(seed * 6007 + i, order[i::32], 60 if quick else 2500) for i in range(32)]):
         total.merge(a)
     grids = grid_sources()
     rng.shuffle(grids)
